@@ -134,4 +134,27 @@ CHECKS = {
               'unbounded theorem. Reference reuse is the known finding recorded under C01.'),
         note=COMMON_NOTE + 'Atomic handlers; receipt text parsing is C20 and PDU decoding C03/C04; segmentation references assumed unique among live messages.',
         technique='Lean 4 theorems (single-step refinement lemmas, max-aggregation law); differential correspondence through the real handlers with an attribution predicate'),
+    'C03': dict(
+        text=('Proof, PARTIAL. Props/C03.lean over the model of protocol.py pdu()/from_pdu()/parse_header and the TLV codec (after '
+              'repairs 2a0ae40, b9c0e0e): command_length equals the number of octets produced for all fifteen classes and every '
+              'field assignment for which pdu() returns; struct pack/unpack are inverse on the representable range at any '
+              'offset; the header parses back; decode(pdu(m)) = m is a theorem for the five body-less classes (every sequence '
+              'number, every status member) and for submit_sm_resp/deliver_sm_resp (every ASCII id up to 64 characters). For '
+              'submit_sm/deliver_sm/bind/bind_resp the round trip is NOT yet a theorem: it is decided by the octet-for-octet '
+              'correspondence of the model encoder and decoder with the code plus the round-trip predicate on generated '
+              'messages (all alphabets, boundary lengths 0/254/255, TLVs of every value type, both time forms, payload).'),
+        note=COMMON_NOTE + 'CPython codecs other than gsm0338/gsm0338_packed/ucs2/ascii/latin_1 and registered error handlers are opaque (not judged). Text outside the chosen alphabet under a lossy error mode, and an explicit gsm0338 encoding differing from the configured default, are outside the round-trip domain (see DESIGN.md).',
+        technique='Lean 4 theorems (length bookkeeping over all constructors, pack/unpack inverse by radix lemmas); differential correspondence octet for octet + round-trip predicate'),
+    'C04': dict(
+        text=('Proof, PARTIAL, one known finding. Props/C04.lean against Spec/Smpp34.lean (SMPP 3.4 transcribed without reference '
+              'to the code): all 65,536 TLV tags have the value type and width of 5.3.2; command ids and data_coding values; '
+              'header layout; body-less PDUs and submit_sm_resp/deliver_sm_resp are exactly the reference PDU; the body of '
+              'submit_sm/deliver_sm lays out the seventeen mandatory fields in the order, widths and C-octet termination of '
+              '4.4.1/4.6.1 for every in-range assignment; integer TLVs are tag/length/value big-endian. NOT theorems (decided '
+              'by correspondence + an independent Python encoder): bind bodies, string TLVs, choice of data_coding and text '
+              'octets, and the decoding direction for foreign PDU shapes (TLV permutations, omitted response bodies, '
+              'sc_interface_version, UDH 8/16-bit, NUL-terminated octet strings). Known finding udh-other-ie-first (a UDH whose '
+              'first element is not the concatenation element is misread; kernel-checked on the model, replayed on the code).'),
+        note=COMMON_NOTE + 'Two hand transcriptions of SMPP 3.4 (Spec/Smpp34.lean, tools/spec/smpp.py) and of 3GPP TS 23.038 are the reference; an error common to both and to the code would go unseen.',
+        technique='Lean 4 theorems (decide +kernel over whole tables via run-length structure, list-of-fields equality); differential correspondence + independent encoder in both directions'),
 }
